@@ -97,7 +97,13 @@ def strip_date_line(text):
     return text[nl + 1:] if nl >= 0 else ''
 
 
+OLD_STAMP = 1000000000  # 2001-09-09: any file written during a call is newer
+
+
 def snapshot_dir(path):
+    """Stamp every existing *.pka with an old mtime and return {name: inode}.
+    A file is 'written by the call' iff afterwards it is new or its mtime is
+    no longer the stamp - independent of timestamp granularity."""
     out = {}
     try:
         names = sorted(os.listdir(path))
@@ -106,20 +112,39 @@ def snapshot_dir(path):
     for n in names:
         p = os.path.join(path, n)
         if n.endswith('.pka') and os.path.isfile(p):
-            st = os.stat(p)
-            out[n] = (st.st_mtime_ns, st.st_size, st.st_ino)
+            try:
+                os.utime(p, (OLD_STAMP, OLD_STAMP))
+            except OSError:
+                pass
+            out[n] = True
     return out
 
 
 def read_pka_files(path, before):
     """Texts (minus date line) of every *.pka created or modified since
-    'before'."""
+    snapshot_dir()."""
     out = {}
-    for n, sig in snapshot_dir(path).items():
-        if before.get(n) != sig:
-            with open(os.path.join(path, n), 'r', encoding='utf-8',
-                      errors='replace') as fh:
-                out[n] = strip_date_line(fh.read())
+    try:
+        names = sorted(os.listdir(path))
+    except OSError:
+        return out
+    for n in names:
+        p = os.path.join(path, n)
+        if not (n.endswith('.pka') and os.path.isfile(p)):
+            continue
+        if n in before and int(os.stat(p).st_mtime) == OLD_STAMP:
+            continue
+        fd = os.open(p, os.O_RDONLY)
+        try:
+            data = b''
+            while True:
+                chunk = os.read(fd, 1 << 20)
+                if not chunk:
+                    break
+                data += chunk
+        finally:
+            os.close(fd)
+        out[n] = strip_date_line(data.decode('utf-8', errors='replace'))
     return out
 
 
